@@ -18,6 +18,8 @@ structure Sys where
   s : Src := {}
   t : Tgt := {}
   fwd : List Delta := []
+  /-- source indices whose live forward reached the orchestrator -/
+  live : List Nat := []
   snapDone : Bool := false
   switched : Bool := false
   everStarted : Bool := false
@@ -72,36 +74,43 @@ def num (s : String) (max : Nat) : Option Nat :=
   | none => none
 
 inductive Op
-  | w (k v : Nat) | wt (k v : Nat) | start | snap | dl (is : List Nat) | fence | ack (i : Nat) | switch | rt | rs
+  | w (k v : Nat) (drop : Bool) | wt (k v : Nat) | start | snap | dl (is : List Nat) (fromOutbox : Bool) (stalePos : Option Nat)
+  | fence | ack (i : Nat) | ackc (i : Nat) | switch | rt | rs
+
+def idxList (rest : List String) : Option (List Nat) :=
+  if rest.isEmpty || rest.length > 4 then none
+  else
+    let ns := rest.filterMap (fun x => num x 1048576)
+    if ns.length == rest.length then some ns else none
 
 def parseOp (op : String) : Option Op :=
   match fields op with
-  | ["w", k, v] => do let k ← num k 4; let v ← num v 1048576; if k == 0 then none else pure (Op.w k v)
+  | ["w", k, v] => do let k ← num k 4; let v ← num v 1048576; if k == 0 then none else pure (Op.w k v false)
+  | ["wd", k, v] => do let k ← num k 4; let v ← num v 1048576; if k == 0 then none else pure (Op.w k v true)
   | ["wt", k, v] => do let k ← num k 4; let v ← num v 1048576; if k == 0 then none else pure (Op.wt k v)
   | ["start"] => some .start
   | ["snap"] => some .snap
-  | "dl" :: rest =>
-    if rest.isEmpty || rest.length > 4 then none
-    else
-      let ns := rest.filterMap (fun x => num x 1048576)
-      if ns.length == rest.length then some (.dl ns) else none
+  | "dl" :: rest => idxList rest |>.map (fun ns => Op.dl ns false none)
+  | "dlo" :: rest => idxList rest |>.map (fun ns => Op.dl ns true none)
+  | "dlm" :: p :: rest => do let p ← num p 1; let ns ← idxList rest; pure (Op.dl ns false (some p))
   | ["fence"] => some .fence
   | ["ack", i] => (num i 1048576).map Op.ack
+  | ["ackc", i] => (num i 1048576).map Op.ackc
   | ["switch"] => some .switch
   | ["rt"] => some .rt
   | ["rs"] => some .rs
   | _ => none
 
-def addFwd (y : Sys) (d : Option Delta) : Sys :=
+def addFwd (y : Sys) (d : Option Delta) (drop : Bool := false) : Sys :=
   match d with
-  | some d => { y with fwd := y.fwd ++ [d] }
+  | some d => { y with fwd := y.fwd ++ [d], live := if drop then y.live else y.live ++ [d.idx] }
   | none => y
 
 /-- the model's step: new system state and result string -/
 def stepOp (y : Sys) : Op → Sys × String
-  | .w k v =>
+  | .w k v drop =>
     let r := y.s.write k v
-    (addFwd { y with s := r.1 } r.2.2, r.2.1)
+    (addFwd { y with s := r.1 } r.2.2 drop, r.2.1)
   | .wt k v =>
     let r := y.t.write k v
     ({ y with t := r.1 }, r.2)
@@ -111,12 +120,20 @@ def stepOp (y : Sys) : Op → Sys × String
   | .snap =>
     if !y.everStarted || y.snapDone || y.switched then (y, "skip")
     else ({ y with t := y.t.importSnapshot y.s, snapDone := true }, "ok")
-  | .dl is =>
+  | .dl is fromOutbox stalePos =>
     if !y.snapDone then (y, "skip")
     else
-      let ds := is.filterMap (fun i => y.fwd.find? (fun d => d.idx == i))
+      let avail := fun (i : Nat) => if fromOutbox then y.s.outbox.any (· == i) else y.live.any (· == i)
+      let ds := is.filterMap (fun i => if avail i then y.fwd.find? (fun d => d.idx == i) else none)
       if ds.length != is.length then (y, "norow")
-      else ({ y with t := y.t.deliverAll ds, delivered := y.delivered ++ is }, ",".intercalate (is.map (fun _ => "ok")))
+      else
+        -- with a stale companion command the batch commit fails and the FSM re-applies one by one: same effect
+        let oks := is.map (fun _ => "ok")
+        let rs := match stalePos with
+          | none => oks
+          | some 0 => "stale" :: oks
+          | some _ => oks ++ ["stale"]
+        ({ y with t := y.t.deliverAll ds, delivered := y.delivered ++ is }, ",".intercalate rs)
   | .fence =>
     let r := y.s.fence
     let y' := addFwd { y with s := r.1 } r.2.2
@@ -124,9 +141,12 @@ def stepOp (y : Sys) : Op → Sys × String
   | .ack i =>
     if !y.delivered.any (· == i) then (y, "skip")
     else let r := y.s.ack i; ({ y with s := r.1 }, r.2)
+  | .ackc i =>
+    if !y.delivered.any (· == i) then ({ y with s := { y.s with idx := y.s.idx + 1 } }, "skip")
+    else let r := y.s.ackCmd i; ({ y with s := r.1 }, r.2)
   | .switch =>
     let ready := y.everStarted && y.snapDone && !y.switched && y.fencedSeen &&
-      y.fwd.all (fun d => y.delivered.any (· == d.idx))
+      y.s.outbox.all (fun i => y.delivered.any (· == i))
     if !ready then (y, "skip")
     else ({ y with switched := true, s := { y.s with owned := false, started := false }, t := { y.t with owned := true } }, "ok")
   | .rt => (y, "ok")
@@ -178,7 +198,7 @@ def judge (d : DState) (op : Op) (res : String) (o : Obs) : String × DState :=
   let pre : Obs := d.prev.getD { sdata := [], tdata := [], ob := [], st := "-", ad := [] }
   let accepted := res == "ok"
   match op with
-  | .w k v =>
+  | .w k v _ =>
     let idx := d.jIdx + 1
     let d := { d with jIdx := idx }
     if d.jSwitched then
@@ -204,7 +224,7 @@ def judge (d : DState) (op : Op) (res : String) (o : Obs) : String × DState :=
     let d := { d with jIdx := idx }
     let d := if accepted && fenceOf pre.st == 0 && fenceOf o.st != 0 then { d with jFwd := d.jFwd ++ [⟨idx, none⟩] } else d
     ("ok", d)
-  | .dl is =>
+  | .dl is _ _ =>
     if res == "skip" || res == "norow" || res.startsWith "err" then
       (if kvEq o.tdata pre.tdata then "ok" else "viol:refused-delivery-changed-target", d)
     else
@@ -228,6 +248,12 @@ def judge (d : DState) (op : Op) (res : String) (o : Obs) : String × DState :=
     if res != "ok" then ("ok", d)
     else
       diverge { d with jSwitched := true } o.tdata
+  | .ack i | .ackc i =>
+    let d := if op matches .ackc _ then { d with jIdx := d.jIdx + 1 } else d
+    -- an ack removes at most the acked row: every other outbox row survives
+    if pre.ob.any (fun x => x != i && !o.ob.any (· == x)) then ("viol:ack-removed-other-outbox-row", d)
+    else if !kvEq o.tdata pre.tdata || !kvEq o.sdata pre.sdata then ("viol:ack-changed-data", d)
+    else ("ok", d)
   | .rt | .rs =>
     (if kvEq o.tdata pre.tdata && kvEq o.sdata pre.sdata && sortNat o.ad == sortNat pre.ad then "ok" else "viol:restart-changed-durable-state", d)
   | _ => ("ok", d)
